@@ -4,7 +4,20 @@ that claims, N/A reasons and hook commits stay consistent)."""
 import json, subprocess, os
 V = os.path.dirname(os.path.dirname(os.path.abspath(__file__)))
 
+TECH = "contract-based deductive verification (WP/symbolic-execution VCs over go/ast+go/types, SMT: z3 5.1/4.8, cvc5)"
 CLAIMS = {
+ "C01": dict(
+  category="other",
+  text="Deductive: Machine.setActiveStates is proved (for all schemas, active sets, targets, called sets) to preserve the clock invariant (tick parity = activity) and to move each tick by exactly the documented step, with a frame condition; every reader method is proved to return its documented function of (activeStates, clock); tick helpers are proved against parity specs. Level 'other' because the no-half-applied-view clause rests on lock-discipline obligations plus Go mutex semantics, not on interleavings.",
+  design_ref="DESIGN.md 3 (C01)",
+  note="Trusted: gocv, go/types, SMT solvers; logging helpers have trusted frame contracts; tick overflow excluded by precondition; handler-fault paths exempt per the statement.",
+  technique=TECH),
+ "C20": dict(
+  category="other",
+  text="Deductive for the functions listed in the evidence: set/sequence algebra of the state-list helpers (S.Add1/Delete/Delete1/Sub/Shared/Equal/EqualOrder/Has/Unique, SRem, StatesDiff/Shared/Equal, slices helpers, ParseStates/mustParseStates, Machine readers) proved against mathematical specs for all inputs, plus a zero-annotation no-panic sweep (index/slice bounds, nil deref, nil-map write, division, explicit panic) inside every function under contract and copy/freshness postconditions of getters. Level 'other' because totality is claimed only for the swept functions and blocking is outside the verifier.",
+  design_ref="DESIGN.md 3 (C20)",
+  note="Trusted: gocv, go/types, SMT solvers, modelled stdlib (slices/maps); exported functions not under contract are listed as unverified in the evidence, never counted.",
+  technique=TECH),
  "C10": dict(
   category="proof",
   text="Every obligation generated from the current source of the RPC clock codec (encoder genDeepUpdate/genShallowUpdate/calcUpdate, decoder Client.clockFromUpdate, Checksum) against functional contracts is discharged by an SMT solver for all state counts, tracked subsets and tick values (unbounded, wrap-exact unsigned arithmetic); the round-trip and checksum clauses are lemmas over those contracts. Proof level is right here because the property is pure integer/array code with no schedule dimension.",
